@@ -8,10 +8,11 @@ LEAN_MODULES = ["AwsVerif.Props.C03"]
 COMPONENT = "sba"
 DRIVER_EXE = "awssba"   # own executable: the model imports the generated math layer
 P_DIFF_CONCRETE = False   # what is served by a bin vs the parent is conformance; the oracle (identity-based accounting, monitors) decides violations
-HARNESS = dict(name="sba", flavour="asan", ldflags=["-Wl,--wrap=posix_memalign", "-Wl,--wrap=free"])
+WRAPS = ["-Wl,--wrap=posix_memalign", "-Wl,--wrap=free", "-Wl,--wrap=malloc", "-Wl,--wrap=calloc", "-Wl,--wrap=realloc"]
+HARNESS = dict(name="sba", flavour="asan", ldflags=WRAPS)
 TIMEOUT = 300
 SCHED_HARNESS = dict(name="sba", flavour="asan", extra_cflags=["-DSBA_SCHED"], extra_srcs=[detsched.SRC],
-                     ldflags=["-Wl,--wrap=posix_memalign", "-Wl,--wrap=free"] + detsched.LDFLAGS)
+                     ldflags=WRAPS + detsched.LDFLAGS)
 TRUSTED = ["hand model lean/AwsVerif/Model/Sba.lean (tied by this correspondence run only)",
            "generated constants lean/AwsVerif/Gen/SbaConsts.lean (compiled sizeof/offsetof probe of allocator_sba.c, cross-checked against the source text)",
            "generated aws_round_up_to_power_of_two / aws_clz_i32 / aws_sub_size_saturating (gen/math_gen.py, shared with C16)",
@@ -209,6 +210,30 @@ def check_critical_sections():
         raise GenError("bin operations are called from a place other than the two locked call sites")
 
 
+def find_bin_consts():
+    """s_sba_find_bin is transcribed by hand over the generated math functions; its statement shapes are checked on the
+    source text and its two literals (31 - lz, saturating minus 5) are generated, so that findBin_spec / findBin_min
+    (decide over all sizes <= 512) are re-proved against what the source says now"""
+    src = open(os.path.join(cbuild.REPO, "source", "allocator_sba.c")).read()
+    src = re.sub(r"/\*.*?\*/", " ", src, flags=re.S)
+    m = re.search(r"static\s+struct\s+sba_bin\s*\*s_sba_find_bin\s*\([^)]*\)\s*\{(.*?)\n\}\n", src, re.S)
+    if not m:
+        raise GenError("s_sba_find_bin not recognised")
+    stm = [re.sub(r"\s+", " ", s).strip() for s in m.group(1).split(";") if s.strip() and "AWS_PRECONDITION" not in s and "AWS_ASSERT" not in s]
+    pat = [r"size_t next_pow2 = 0", r"aws_round_up_to_power_of_two\(size, &next_pow2\)", r"size_t lz = aws_clz_i32\(\(int32_t\)next_pow2\)",
+           r"size_t idx = aws_sub_size_saturating\((\d+) - lz, (\d+)\)", r"struct sba_bin \*bin = &sba->bins\[idx\]", r"return bin"]
+    if len(stm) != len(pat):
+        raise GenError(f"s_sba_find_bin: {len(stm)} statements, the model transcribes {len(pat)}: {stm}")
+    top = low = None
+    for s, pt in zip(stm, pat):
+        mm = re.fullmatch(pt, s)
+        if not mm:
+            raise GenError(f"s_sba_find_bin: statement `{s}` is not of the modelled shape `{pt}`")
+        if mm.groups():
+            top, low = int(mm.group(1)), int(mm.group(2))
+    return top, low
+
+
 def purge_bounds():
     """(lean text, C text) of page_start, page_end and the range test of the purge loop, from the source"""
     src = open(os.path.join(cbuild.REPO, "source", "allocator_sba.c")).read()
@@ -236,6 +261,7 @@ def regen(ctx):
     _consts.update(c)
     pb = purge_bounds()
     check_critical_sections()
+    fb_top, fb_low = find_bin_consts()
     lean = f"""/-! GENERATED by props/c03.py from /repo's source/allocator_sba.c (compiled sizeof/offsetof probe + source text) — do not edit. -/
 namespace AwsVerif.Gen.SbaConsts
 
@@ -253,6 +279,10 @@ def tagValue : Nat := {c['TAG_VALUE']}
 def hdrSize : Nat := {c['HDR_SIZE']}
 /-- width in bits of page_header.alloc_count -/
 def countBits : Nat := {c['COUNT_BITS']}
+
+/-- s_sba_find_bin: `aws_sub_size_saturating(<findBinTop> - lz, <findBinLow>)` -/
+def findBinTop : Nat := {fb_top}
+def findBinLow : Nat := {fb_low}
 
 /-! Purge loop of `s_sba_free_to_bin`, translated from the source text; `page` is the numeric address of the
 page base, `binSz` is `bin->size`. -/
@@ -386,6 +416,8 @@ class Builder:
         if self.rng.random() < 0.3:
             self.ops.append("active")
             self.ops.append("reserved")
+        if self.rng.random() < 0.5:
+            self.ops.append("pagesize")
         if destroy:
             self.ops.append("destroy")
         return Case(self.ops, dict(self.tags))
@@ -746,7 +778,7 @@ def oracle(case, lines):
         elif t[0] == "realloc":
             old, new = int(t[2]), int(t[3])
             b = live.get(t[1])
-            if b is None:
+            if b is None or b["size"] != old:      # the harness answers bad-op (minimised replays)
                 nxt()
                 continue
             idn, bad = ident(op, t[1])
@@ -777,13 +809,17 @@ def oracle(case, lines):
             exp = sum(b["cls"] for b in live.values())
             if l != f"P active={exp}":
                 errs.append(f"active: {l} expected {exp}")
-        elif t[0] in ("reserved", "pagesize"):
+        elif t[0] == "pagesize":
+            l = nxt()
+            if l != f"P pagesize={PS} avail={PS - HDR}":
+                errs.append(f"page_size / page_size_available getters: {l} (page size {PS}, header {HDR})")
+        elif t[0] == "reserved":
             nxt()
         elif t[0] == "destroy":
             l = nxt()
             if live:
                 continue
-            if l != "P destroyed pages_left=0 parent_left=0":
+            if l != "P destroyed pages_left=0 parent_left=0 backend_left=0":
                 errs.append(f"destroy did not return everything: {l}")
             have = False
         else:
@@ -852,7 +888,7 @@ def extra_stages(ctx):
             ls = out.splitlines()
             st = [l for l in ls if l.startswith("P stress")]
             ds = [l for l in ls if l.startswith("P destroyed")]
-            ok = rc == 0 and st and " ok=1 " in st[0] and ds == ["P destroyed pages_left=0 parent_left=0"]
+            ok = rc == 0 and st and " ok=1 " in st[0] and ds == ["P destroyed pages_left=0 parent_left=0 backend_left=0"]
             results.append({"threads": nt, "ops_per_thread": ops, "ok": bool(ok)})
             if not ok:
                 ctx.violation(f"stress-{ctx.seed}-{nt}", {"stress_ops": text.splitlines(), "threads": nt, "observed": out[-2500:],
@@ -860,10 +896,38 @@ def extra_stages(ctx):
                               "threaded run on a multi-threaded allocator: " + (st[0] if st else f"rc={rc} (crash / sanitizer abort)"))
     ctx.cov["threaded_stress_runs_TEST"] = results
     ctx.notes.append("threaded stage is an OS-scheduled stress test (supporting run), not a proof over schedules")
+    parent_stage(ctx, exe)
     plain_stage(ctx)
     sched_stage(ctx)
     if not quick:
         debug_stage(ctx)
+
+
+def parent_stage(ctx, exe):
+    """the PARENT CONTRACT assumed by the model (ASSUMPTIONS), checked directly on every parent configuration under ASan:
+    aws_mem_acquire / calloc (num > 1) / realloc / release on the parent itself, sizes around 512 and 4096, patterns of all
+    live blocks after every step, calloc zeros, realloc keeps min(old,new), C-library balance 0 at the end"""
+    quick = ctx.tier == "quick"
+    jobs = [(k, ctx.seed * 131 + i) for k in PARENTS for i in range(3 if quick else 40)]
+
+    def one(job):
+        kind, seed = job
+        ops = [f"parent {kind} {3000 if quick else 20000} {seed}"]
+        rc, out, _ = core.run_stream([exe], "case 0\n" + "\n".join(ops) + "\n", 300)
+        ls = out.splitlines()
+        mon = [l for l in ls if l.startswith("P MONITOR")]
+        ok = rc == 0 and f"P parent kind={kind} ok=1" in ls
+        return ops, ok, rc, (mon[0] if mon else out[-400:])
+    from concurrent.futures import ThreadPoolExecutor
+    fails = 0
+    with ThreadPoolExecutor(8) as ex:
+        for ops, ok, rc, msg in ex.map(one, jobs):
+            if not ok:
+                fails += 1
+                if fails <= 2:
+                    ctx.violation(f"parent-{ctx.seed}-{ops[0].split()[1]}-{ops[0].split()[3]}", {"history_ops": ops, "flavour": "asan", "observed": msg, "rc": rc},
+                                  "parent allocator against the contract the model assumes: " + msg[:300])
+    ctx.cov["parent_contract_runs"] = {"runs": len(jobs), "failed": fails}
 
 
 def plain_stage(ctx):
@@ -927,7 +991,7 @@ def history_runs(ctx, exe):
         ls = out.splitlines()
         h = [l for l in ls if l.startswith("P history")]
         mon = [l for l in ls if l.startswith("P MONITOR")]
-        ok = rc == 0 and h and h[0].endswith("ok=1") and "P destroyed pages_left=0 parent_left=0" in ls and not mon
+        ok = rc == 0 and h and h[0].endswith("ok=1") and "P destroyed pages_left=0 parent_left=0 backend_left=0" in ls and not mon
         return ops, ok, rc, (mon[0] if mon else (h[0] if h else out[-300:]))
     from concurrent.futures import ThreadPoolExecutor
     fails = 0
@@ -1014,7 +1078,7 @@ def sched_stage(ctx):
 def replay(ctx, obj):
     if "history_ops" in obj or "sched_ops" in obj:
         sched = "sched_ops" in obj
-        exe = cbuild.build_harness(**(SCHED_HARNESS if sched else dict(HARNESS, flavour="plain")))
+        exe = cbuild.build_harness(**(SCHED_HARNESS if sched else dict(HARNESS, flavour=obj.get("flavour", "plain") if obj.get("flavour") in ("plain", "asan") else "plain")))
         ops = obj["sched_ops"] if sched else obj["history_ops"]
         rc, out, _ = core.run_stream([exe], "case 0\n" + "\n".join(ops) + "\n", 600)
         print(out[-3000:])
@@ -1038,7 +1102,7 @@ def replay(ctx, obj):
         rc, out, _ = core.run_stream([exe], text, 600)
         st = [l for l in out.splitlines() if l.startswith("P stress")]
         ds = [l for l in out.splitlines() if l.startswith("P destroyed")]
-        ok = rc == 0 and st and " ok=1 " in st[0] and ds == ["P destroyed pages_left=0 parent_left=0"]
+        ok = rc == 0 and st and " ok=1 " in st[0] and ds == ["P destroyed pages_left=0 parent_left=0 backend_left=0"]
         print(f"stress replay {k}: {'ok' if ok else 'FAILED'} {st[0] if st else out[-400:]}")
         if not ok:
             ctx.violation(f"stress-replay-{ctx.seed}", {"stress_ops": obj["stress_ops"], "observed": out[-2500:]},
